@@ -25,7 +25,8 @@
      awaiting their merged reply and one FIFO queue of replies per child
      (repair of finding K1).  For the code before the repair the statement
      was false: [C09_k1_history_old_model_refuted]. *)
-From Moc Require Import Base Match MatchProofs Merge MergeProofs MergeAggProofs MergeOracleProofs MergeOld.
+From Moc Require Import Base Match MatchProofs Merge MergeProofs MergeAggProofs MergeOracleProofs MergeOld
+  MergeMulti MergeMultiProofs.
 Open Scope Z_scope.
 
 (** every child answered every EVENT [id]: exactly one OK per EVENT [id] *)
@@ -185,6 +186,48 @@ Theorem C09_agreement_implies_oracle : forall n t,
   (2 <= n)%nat -> trace_ok n (List.map fst t) -> model_agrees (init n) t = true -> c09_oracle n t = true.
 Proof. intros n t Hn. apply agreement_implies_c09_oracle. lia. Qed.
 Print Assumptions C09_agreement_implies_oracle.
+
+(* ------------------------------------------------------------------ *)
+(** One handler value serves every connection.  MergeHandler.ServeNostr
+    allocates the OK and COUNT tables per call, so the model of a handler with
+    [k] sessions is the product of [k] session models ([multi_agrees]), and
+    C09 is required of every session on its own: [c09_multi_oracle] judges
+    what each session saw with [c09_oracle].  An observation of a k-session
+    history that the product model reproduces is accepted, session by session;
+    the correspondence check applies both to histories in which several
+    sessions have the same id in flight. *)
+Theorem C09_sessions_agreement_implies_oracle : forall n k t,
+  (2 <= n)%nat -> (forall p, In p t -> input_ok n (fst (snd p))) ->
+  multi_agrees (repeat (init n) k) t = true -> c09_multi_oracle n k t = true.
+Proof. intros n k t Hn. apply multi_agreement_implies_c09_oracle. lia. Qed.
+Print Assumptions C09_sessions_agreement_implies_oracle.
+
+(** the judgement has teeth: two sessions, the same EVENT id in flight on
+    both, child 0 rejects on session 0 only.  Replies in the order s0.child0,
+    s1.child1, s1.child0, s0.child1.  What independent sessions do is
+    accepted; the behaviour of an aggregation table shared by the sessions
+    (session 1 receives the rejection made of session 0's reply, before its
+    own child 0 has answered; session 0 is told "accepted") is rejected. *)
+Definition ms_id : str := [113]%N.
+Definition ms_ng : okm := mkOk ms_id false [98; 108; 111; 99; 107; 101; 100; 58; 32]%N [98; 48]%N.
+Definition ms_ok : okm := mkOk ms_id true [] [].
+Definition ms_independent : mtrace :=
+  [(0, (CEvent ms_id, [])); (1, (CEvent ms_id, []));
+   (0, (Child 0 (SOk ms_ng), [])); (1, (Child 1 (SOk ms_ok), []));
+   (1, (Child 0 (SOk ms_ok), [SOk (mkOk ms_id true [] [])]));
+   (0, (Child 1 (SOk ms_ok), [SOk (mkOk ms_id false [] (ok_message ms_ng))]))]%nat.
+Definition ms_shared_table : mtrace :=
+  [(0, (CEvent ms_id, [])); (1, (CEvent ms_id, []));
+   (0, (Child 0 (SOk ms_ng), []));
+   (1, (Child 1 (SOk ms_ok), [SOk (mkOk ms_id false [] (ok_message ms_ng))]));
+   (1, (Child 0 (SOk ms_ok), []));
+   (0, (Child 1 (SOk ms_ok), [SOk (mkOk ms_id true [] [])]))]%nat.
+
+Theorem C09_sessions_example :
+  multi_agrees (repeat (init 2) 2) ms_independent = true /\ c09_multi_oracle 2 2 ms_independent = true /\
+  multi_agrees (repeat (init 2) 2) ms_shared_table = false /\ c09_multi_oracle 2 2 ms_shared_table = false.
+Proof. repeat split; vm_compute; reflexivity. Qed.
+Print Assumptions C09_sessions_example.
 
 (* ------------------------------------------------------------------ *)
 (** Finding K1 (repaired).  Two EVENTs with one id in flight, two children,
